@@ -14,13 +14,13 @@ ID = 'C17'
 RULE = ('(a) weighted digraphs: all n=3 over {0,1,2,3}; n=4 over {0,1,2} with <=4 edges (T: <=6) and over {0,2,3} with <=4 '
         'edges x all disjoint non-empty (sources,sinks) (Q, n=4: alternating halves of the 50 pairs) x scheme {subtract,bottleneck} x num_paths {1,2,inf} x flux_cutoff '
         '{0.3,0.9,1-1e-10}; (b) conserved acyclic flows: every superposition of <=3 source->sink paths with weights {1,0.5} '
-        'on topologically ordered DAGs n<=5 with 1-2 sources/sinks, also scaled by 1e-9, 1e-12 and 3e6 (the statement is scale free); state=(graph,A,B,scheme,limits); non-trivial = >=2 '
+        'on topologically ordered DAGs n<=5 with 1-2 sources/sinks, also scaled by 1e-9, 1e-12 and 3e6 (the statement is scale free); (c) fan-in ladders with 5..10 states (source -> m<=5 feeders -> hub -> chain -> sink, every feeder numbering): a state whose best known flux improves m times; state=(graph,A,B,scheme,limits); non-trivial = >=2 '
         'distinct source->sink paths exist')
 ASSUMPTIONS = ['ties (several paths with the maximal bottleneck) are not resolved by the oracle: any maximiser is accepted',
-               'for the bottleneck scheme the residual graph is tracked only while the removed edge is unambiguous '
-               '(no tie for the minimum along the path); afterwards only order-free clauses are checked',
+               'bottleneck scheme: when several edges of a path tie for the minimum the oracle branches over every choice of the '
+               'ONE deleted edge and accepts the output iff some sequence of choices explains every path and the stopping point',
                'flux = -inf from top_path is the API\'s "no path" answer and is checked against the brute-force search']
-GUARDS = {'scaled_fluxes': 500, 'multi_path_graphs': 500, 'no_path': 500, 'conserved': 200, 'multi_sink': 500, 'cutoff_stop': 100,
+GUARDS = {'tied_bottleneck_branching': 200, 'repeated_improvement_graphs': 50, 'scaled_fluxes': 500, 'multi_path_graphs': 500, 'no_path': 500, 'conserved': 200, 'multi_sink': 500, 'cutoff_stop': 100,
           'count_stop': 500, 'second_path_differs': 500}
 NSH = {'quick': 64, 'thorough': 256}
 CUTS = (0.3, 0.9, 1 - 1e-10)
@@ -82,7 +82,7 @@ def conserved_flows(tier):
 
 
 def shards(tier, seed):
-    return [('graphs', tier, i) for i in range(NSH[tier])] + [('flows', tier, i) for i in range(8)]
+    return [('graphs', tier, i) for i in range(NSH[tier])] + [('flows', tier, i) for i in range(8)] + [('ladders', tier, i) for i in range(4)]
 
 
 def simple_paths(G, sources, sinks):
@@ -186,57 +186,107 @@ def check_case(case, ctx):
         conserved = all(abs(G[:, i].sum() - G[i].sum()) < 10 * tol for i in inter)
         ctx.violation('paths:sum_exceeds_outflow:%s:%s' % (scheme, 'conserved' if conserved else 'nonconserved'), case,
                       'path fluxes %r sum to %r > outflow of sources %r (%r)' % (fs.tolist(), fs.sum(), total, case))
-    # per-path clauses on the independently tracked residual graph
-    R = G.copy()
-    tracked = True
-    for k, (p, f) in enumerate(zip(ps, fs)):
-        p = [int(x) for x in p]
-        if tracked:
-            err = check_path(R, p, f, A, B, tol)
-            if err:
-                ctx.violation('paths:invalid_path:%s' % scheme, case, 'path #%d: %s (%r)' % (k, err, case))
-                break
-            best = max(b for _, b in simple_paths(R, A, B))
-            if abs(f - best) > tol:
-                ctx.violation('paths:not_widest_in_residual:%s' % scheme, case,
-                              'path #%d %r flux %r but residual graph has a path with bottleneck %r (%r)' % (k, p, f, best, case))
-                break
-            edges = list(zip(p[:-1], p[1:]))
-            caps = [R[a, b] for a, b in edges]
-            if scheme == 'subtract':
-                for a, b in edges:
-                    R[a, b] -= f          # the same float operation the scheme performs; tied minima become exactly 0
-            else:
-                if sum(1 for c in caps if abs(c - min(caps)) <= 1e-3 * tol) > 1:
-                    tracked = False
-                else:
-                    a, b = edges[int(np.argmin(caps))]
-                    R[a, b] = 0.0
+    # per-path clauses on the independently tracked residual graph.  The bottleneck scheme deletes ONE smallest edge of
+    # the path; when several edges tie for the minimum the statement does not say which, so the oracle branches over
+    # every choice and accepts the output if SOME sequence of choices explains all of it (including why it stopped).
+    ps_l = [[int(x) for x in p] for p in ps]
+    if len(ps_l) > 1 and ps_l[0] != ps_l[1]:
+        ctx.guard('second_path_differs')
+    best_fail = [(-1, None, None)]      # (depth reached, signature, message)
+
+    def fail(depth, sig, msg):
+        if depth > best_fail[0][0]:
+            best_fail[0] = (depth, sig, msg)
+        return False
+
+    def explain(R, k):
+        if k == len(ps_l):
+            # termination cause: if neither limit was hit, no residual path may remain
+            if len(ps_l) < lim and total > 0 and fs.sum() / total < cut - 1e-9 and simple_paths(R, A, B):
+                return fail(k, 'paths:stopped_early:%s' % scheme,
+                            'returned %d paths explaining %.6g of the flux (cutoff %r, num_paths %r) although a residual path remains (%r)' % (
+                                len(ps_l), fs.sum() / total, cut, npaths, case))
+            return True
+        p, f = ps_l[k], fs[k]
+        err = check_path(R, p, f, A, B, tol)
+        if err:
+            return fail(k, 'paths:invalid_path:%s' % scheme, 'path #%d: %s (%r)' % (k, err, case))
+        best = max(b for _, b in simple_paths(R, A, B))
+        if abs(f - best) > tol:
+            return fail(k, 'paths:not_widest_in_residual:%s' % scheme,
+                        'path #%d %r flux %r but residual graph has a path with bottleneck %r (%r)' % (k, p, f, best, case))
+        edges = list(zip(p[:-1], p[1:]))
+        caps = [R[a, b] for a, b in edges]
+        if scheme == 'subtract':
+            R2 = R.copy()
+            for a, b in edges:
+                R2[a, b] -= f          # the same float operation the scheme performs; tied minima become exactly 0
+            return explain(R2, k + 1)
+        tied = [e for e, c in zip(edges, caps) if abs(c - min(caps)) <= 1e-3 * tol]
+        if len(tied) > 1:
+            ctx.guard('tied_bottleneck_branching')
+        for a, b in tied:
+            R2 = R.copy()
+            R2[a, b] = 0.0
+            if explain(R2, k + 1):
+                return True
+        return False
+
+    if not explain(G.copy(), 0):
+        _, sig, msg = best_fail[0]
+        ctx.violation(sig, case, msg)
+    elif case.get('conserved') and len(ps_l) < lim and total > 0:
+        if fs.sum() / total < cut - 1e-9:
+            ctx.violation('paths:conserved_flux_not_explained:%s' % scheme, case,
+                          'conserved flow: explained %.12g < cutoff %r with %d paths (num_paths %r) (%r)' % (
+                              fs.sum() / total, cut, len(ps_l), npaths, case))
         else:
-            if len(p) < 2 or p[0] not in A or p[-1] not in B or len(set(p)) != len(p) or \
-                    any(G[a, b] <= 0 for a, b in zip(p[:-1], p[1:])):
-                ctx.violation('paths:invalid_path:%s' % scheme, case, 'path #%d %r invalid (%r)' % (k, p, case))
-                break
-        if k == 1 and list(ps[0]) != list(ps[1]):
-            ctx.guard('second_path_differs')
-    else:
-        # termination cause: if neither limit was hit, no residual path may remain
-        if tracked and len(ps) < lim and total > 0 and fs.sum() / total < cut - 1e-9:
-            if simple_paths(R, A, B):
-                ctx.violation('paths:stopped_early:%s' % scheme, case,
-                              'returned %d paths explaining %.6g of the flux (cutoff %r, num_paths %r) although a residual path remains (%r)' % (
-                                  len(ps), fs.sum() / total, cut, npaths, case))
-        if case.get('conserved') and len(ps) < lim and total > 0:
-            if fs.sum() / total < cut - 1e-9:
-                ctx.violation('paths:conserved_flux_not_explained:%s' % scheme, case,
-                              'conserved flow: explained %.12g < cutoff %r with %d paths (num_paths %r) (%r)' % (
-                                  fs.sum() / total, cut, len(ps), npaths, case))
-            else:
-                ctx.guard('cutoff_stop')
+            ctx.guard('cutoff_stop')
+
+
+def ladders(tier):
+    """graphs in which the best known flux into one state improves many times before the sink is reached (a lazy priority
+    queue holds several stale entries for it): source -> m feeders (decreasing flux) -> hub (increasing flux) -> chain -> sink,
+    plus a trickle source -> sink; every numbering of the feeders"""
+    out = []
+    for m in (2, 3, 4, 5):
+        for L in (0, 1, 2):
+            n = m + 3 + L
+            perms = list(itertools.permutations(range(m)))
+            if tier == 'quick':
+                perms = perms[::max(1, len(perms) // 6)]
+            for perm in perms:
+                G = np.zeros((n, n))
+                hub = m + 1
+                for rank_, slot in enumerate(perm):
+                    G[0, 1 + slot] = 10.0 - rank_
+                    G[1 + slot, hub] = 1.0 + rank_
+                prev = hub
+                for t in range(L):
+                    G[prev, hub + 1 + t] = 20.0
+                    prev = hub + 1 + t
+                G[prev, n - 1] = 20.0
+                G[0, n - 1] = 0.5
+                out.append(G)
+                G2 = G.copy()
+                G2[0, n - 1] = 0.0                      # without the trickle: the sink is only reachable through the hub
+                out.append(G2)
+    return out
 
 
 def run_shard(sh, ctx):
     kind, tier, i = sh
+    if kind == 'ladders':
+        ls = ladders(tier)
+        for j in range(i, len(ls), 4):
+            G = ls[j]
+            for scheme in ('subtract', 'bottleneck'):
+                for npaths in ('inf', 1):
+                    ctx.guard('repeated_improvement_graphs')
+                    case = {'G': G.tolist(), 'A': [0], 'B': [len(G) - 1], 'scheme': scheme, 'num_paths': npaths, 'cutoff': CUTS[2]}
+                    check_case(case, ctx)
+        ctx.sample(case)
+        return
     if kind == 'graphs':
         gs = digraphs(tier)
         for j in range(i, len(gs), NSH[tier]):
